@@ -248,7 +248,10 @@ def _bf_var_split(fn):
     for n in ast.walk(fn):
         if isinstance(n, ast.If) and isinstance(n.test, ast.Call) and "isinstance(code, list)" in ast.unparse(n.test):
             out = []
-            for st in n.orelse:
+            stmts = n.orelse
+            if len(stmts) == 1 and isinstance(stmts[0], ast.If) and "isinstance(code, bytes)" in ast.unparse(stmts[0].test):
+                stmts = stmts[0].body           # `elif isinstance(code, bytes):` - anything that is neither an array nor a string is skipped with a warning
+            for st in stmts:
                 if isinstance(st, ast.For):
                     break
                 out.append(st)
